@@ -20,7 +20,7 @@ type opGen struct {
 
 func (g *opGen) newBlock(t *rapid.T) int {
 	g.uniq++
-	b := genBlock(t, g.uniq)
+	b := genBlock(t, g.uniq, int(g.e.maxFile)-12)
 	for _, o := range g.e.pool {
 		if o.hash == b.hash {
 			infra(t, "generated two blocks with one hash")
